@@ -267,6 +267,21 @@ SHEETS += [
 </xsl:stylesheet>''' % (X, VX, G, G)),
 ]
 
+# state kept by a facility that reset() does not own: the collation functor installed once per transformer caches one ICU
+# collator per xsl:sort/@lang; a sort with case-order followed by a sort of the SAME lang without it must still use the
+# default case ordering (seed C06_e).  Keys differing only in case: sources 6 (B / b), 7 (q / Q)
+SHEETS += [
+    ("ok", "sort-lang-upper", '''<xsl:stylesheet %s><xsl:output method="text"/>
+ <xsl:template match="/"><xsl:for-each select="//item"><xsl:sort select="." lang="sv" case-order="upper-first"/><xsl:value-of select="."/>,</xsl:for-each></xsl:template>
+</xsl:stylesheet>''' % X),
+    ("ok", "sort-lang-plain", '''<xsl:stylesheet %s><xsl:output method="text"/>
+ <xsl:template match="/"><xsl:for-each select="//item"><xsl:sort select="." lang="sv"/><xsl:value-of select="."/>,</xsl:for-each>|<xsl:for-each select="//item"><xsl:sort select="translate(., 'abcq', 'ABCQ')" lang="sv"/><xsl:sort select="." lang="sv"/><xsl:value-of select="."/>,</xsl:for-each></xsl:template>
+</xsl:stylesheet>''' % X),
+    ("ok", "sort-lang-lower", '''<xsl:stylesheet %s><xsl:output method="text"/>
+ <xsl:template match="/"><xsl:for-each select="//item"><xsl:sort select="." lang="sv" case-order="lower-first"/><xsl:value-of select="."/>,</xsl:for-each></xsl:template>
+</xsl:stylesheet>''' % X),
+]
+
 LAZY_SHEETS = [i for i, t in enumerate(SHEETS) if t[1] in (
     "error-in-global-var-body", "error-in-global-var-select", "error-in-global-param-default",
     "error-in-call-template-params", "error-in-apply-imports", "error-in-attribute-set", "error-in-key-build",
@@ -275,7 +290,7 @@ LAZY_SHEETS = [i for i, t in enumerate(SHEETS) if t[1] in (
 
 # which sheets use the same facility as an aborting sheet (a failure is followed by one of them)
 FACILITY = {
-    "sort": ["sort-text-foreach", "sort-number-apply", "sort-lang", "sort+modes", "error-in-sort-key-text", "error-in-sort-key-number", "error-in-sort-key-second", "rtf+nodeset"],
+    "sort": ["sort-text-foreach", "sort-number-apply", "sort-lang", "sort-lang-upper", "sort-lang-plain", "sort-lang-lower", "sort+modes", "error-in-sort-key-text", "error-in-sort-key-number", "error-in-sort-key-second", "rtf+nodeset"],
     "number": ["number", "error-in-number-count", "error-in-number-count-walk", "deep-no-boom"],
     "key": ["keys+modes", "document", "error-in-key-build", "deep-no-boom"],
     "format-number": ["format-number-custom", "error-in-format-number"],
